@@ -917,7 +917,7 @@ Definition c01_example : list event :=
      EUid [1;2;3;4;5;6;7;8;9;10;11;12;13;14;15;16];
      EMarker [109]; EList; EEnd; ERefLocal [109]; ENull; EBool false; EPadding;
      EMedia [97; 47; 98] [1; 2; 3]; ECustomBin 300 [9];
-     EMediaBegin [116]; EArrayChunk 0 true; EArrayChunk 2 false; EArrayData [5; 6];
+     EMediaBegin [116; 47; 120]; EArrayChunk 0 true; EArrayChunk 2 false; EArrayData [5; 6];
    EEnd;
    EStringArray cbeAT_String [114]; EEdge; ETrue; ENull; EFalse; EEnd; EInt 7; ENode; ENull; EEnd;
    EEnd; EEndDoc].
@@ -1437,7 +1437,7 @@ Definition c01r_example : list event :=
      EArray cbeAT_Uint16 2 [1; 0; 2; 0];
      EUid [1;2;3;4;5;6;7;8;9;10;11;12;13;14;15;16];
      EMarker [109]; EList; EEnd; ERefLocal [109]; ENull; EPadding;
-     EMediaBegin [116]; EArrayChunk 0 true; EArrayChunk 2 false; EArrayData [5; 6];
+     EMediaBegin [116; 47; 120]; EArrayChunk 0 true; EArrayChunk 2 false; EArrayData [5; 6];
    EEnd;
    EInt 5; EInt 5;
    EEnd; EEndDoc].
